@@ -72,6 +72,28 @@ def run(ctx):
             elif kind == "differ":
                 ctx.violation("hostile|hash-colliding-strings", "two different strings with equal VM hash (%s): native and VM disagree: %s" % (name, detail),
                               {"main.nano": text, "native.stdout": o.native.out, "vm.stdout": o.vm.out, "expected.stdout": exp})
+        # ---- 1c. builtin boundary tables (nlv/tables.py): native vs VM, cell by cell -------------
+        from .. import tables
+        bt_cells = 0
+
+        def do_bt(c):
+            return c, engines.observe(plain, sc.sub("btable/" + c[0]), {"main.nano": c[1]})
+
+        for (name, text, exp, ncell, labels), o in pmap(do_bt, tables.builtin_tables()):
+            if not o.built or o.native is None or o.vm is None or "SENTINEL" not in o.native.text() or "SENTINEL" not in o.vm.text():
+                ctx.violation("btable|%s|incomplete" % name, "builtin table %s: %s" % (
+                    name, "native build failed: " + engines.classify_nanoc_failure(o.nanoc) if not o.built else
+                    "a run ended early (native status %s, vm status %s)" % (o.native.status if o.native else None, o.vm.status if o.vm else None)),
+                    {"main.nano": text, "native.stdout": o.native.out if o.native else "", "vm.stdout": o.vm.out if o.vm else ""})
+                continue
+            bad = tables.judge_lines(o.native.text(), o.vm.text()) or []
+            bt_cells += ncell
+            for k, lab, w, g in bad[:40]:
+                ctx.violation("btable|%s" % lab, "builtin table: %s%s: native printed '%s', VM printed '%s'" % (lab, tuple(labels[k][1]), w, g),
+                              {"main.nano": text, "native.stdout": o.native.out, "vm.stdout": o.vm.out})
+            if o.native.status != o.vm.status:
+                ctx.violation("btable|%s|exit-status" % name, "builtin table %s: exit status native %s, VM %s" % (name, o.native.status, o.vm.status), {"main.nano": text})
+        ctx.require(bt_cells > 2500, "builtin tables incomplete (%d cells)" % bt_cells)
         n_cells_equal = sum(1 for k in census_out.values() if k == "equal")
         ctx.require(n_cells_equal >= 20, "census: only %d cells comparable" % n_cells_equal)
 
@@ -125,10 +147,12 @@ def run(ctx):
                 for tok in line.split()[1:]:
                     ops.add(int(tok.split(":")[0]))
         return ctx.finish({
-            "evaluations": len(batch) + len(cells),
-            "distinct_nontrivial": len(feature_sets) + n_cells_equal,
+            "evaluations": len(batch) + len(cells) + bt_cells,
+            "distinct_nontrivial": len(feature_sets) + n_cells_equal + bt_cells,
             "rule": "a program is non-trivial when both engines ran it and >= 10 output lines were compared; distinct = distinct "
-                    "feature-tag sets among those, plus census cells compared equal",
+                    "feature-tag sets among those, plus census cells compared equal, plus builtin-table cells (distinct by construction: "
+                    "one (builtin, argument tuple) each)",
+            "builtin_table_cells_compared": bt_cells,
             "programs": len(batch),
             "programs_compared_equal": n_equal,
             "outcomes": hist,
